@@ -166,6 +166,14 @@ end JGroup
 
 /-! ### messages, configuration, JoinIntoPoint -/
 
+/-- A point of a batch. -/
+structure BPt where
+  time : Int
+  fields : List (String × String)
+deriving DecidableEq, Repr, Inhabited
+
+/-- What the join node sees of a point message – or of a buffered batch (then `time` is the batch's `tmax`,
+`tags` are the batch's group tags, `fields` is empty and `points` holds the batch points). -/
 structure JMsg where
   time : Int
   name : String
@@ -174,6 +182,7 @@ structure JMsg where
   dims : List String
   tags : List (String × String)
   fields : List (String × String)      -- field name ↦ rendered value token
+  points : List BPt := []
 deriving DecidableEq, Repr, Inhabited
 
 inductive Fill where
@@ -233,6 +242,95 @@ def joinIntoPoint (cfg : JCfg) (s : JSet JMsg) : Option JOut :=
     | none => none
     | some fields =>
       some { name := name, time := s.time, byName := first.byName, dims := first.dims, tags := groupTags first, fields := fields }
+
+/-! ### JoinIntoBatch -/
+
+/-- A joined batch. -/
+structure JBOut where
+  name : String
+  time : Int
+  byName : Bool
+  tags : List (String × String)
+  points : List (Int × List (String × String))
+deriving DecidableEq, Repr
+
+/-- State of one pass of the `for i, batch := range js.values` loop inside `BATCH_POINT`. -/
+structure BIter where
+  set : List (Option BPt)
+  setTime : Option Int
+  count : Nat
+  empty : List Bool
+  emptyCount : Nat
+  indexes : List Nat
+  fieldNames : Option (List String)
+deriving Repr
+
+/-- One iteration of that loop, for parent `i`. -/
+def batchVisit (tol : Int) (st : BIter) (i : Nat) (batch : Option JMsg) : BIter :=
+  if st.empty.getD i false then st else
+  match batch with
+  | none => { st with emptyCount := st.emptyCount + 1, empty := st.empty.set i true }
+  | some b =>
+    let idx := st.indexes.getD i 0
+    match b.points[idx]? with
+    | none => { st with emptyCount := st.emptyCount + 1, empty := st.empty.set i true }   -- indexes[i] == len(b.Points())
+    | some bp =>
+      let t := goRound tol bp.time
+      let setTime := st.setTime.getD t                        -- if setTime.IsZero() { setTime = t }
+      if t < setTime then
+        -- "we need to backup": give back what was taken in this pass, restart the set at the earlier time
+        let indexes := List.zipWith (fun ix (s : Option BPt) => if s.isSome then ix - 1 else ix) st.indexes st.set
+        { st with setTime := some t, set := (st.set.map (fun _ => none)).set i (some bp),
+                  indexes := indexes.set i (indexes.getD i 0 + 1), count := 1 }
+      else if t = setTime then
+        { st with setTime := some setTime, set := st.set.set i (some bp), indexes := st.indexes.set i (idx + 1),
+                  count := st.count + 1,
+                  fieldNames := match st.fieldNames with
+                    | some f => some f
+                    | none => some (bp.fields.map (·.1)) }
+      else { st with setTime := some setTime }
+
+def batchPass (tol : Int) : Nat → List (Option JMsg) → BIter → BIter
+  | _, [], st => st
+  | i, b :: bs, st => batchPass tol (i + 1) bs (batchVisit tol st i b)
+
+/-- "Join all batch points in set": `none` = `continue BATCH_POINT` (inner join, a parent is missing). -/
+def batchFields (cfg : JCfg) (fieldNames : List String) :
+    List (Option BPt) → List String → List (String × String) → Option (List (String × String))
+  | [], _, acc => some acc
+  | none :: vs, pre :: pres, acc =>
+    match cfg.fill with
+    | .null => batchFields cfg fieldNames vs pres (fieldNames.foldl (fun a k => putField (pre ++ cfg.delim ++ k) "nil" a) acc)
+    | .num tok => batchFields cfg fieldNames vs pres (fieldNames.foldl (fun a k => putField (pre ++ cfg.delim ++ k) tok a) acc)
+    | .none => none
+  | some p :: vs, pre :: pres, acc =>
+    batchFields cfg fieldNames vs pres (p.fields.foldl (fun a kv => putField (pre ++ cfg.delim ++ kv.1) kv.2 a) acc)
+  | _ :: _, [], acc => some acc
+
+/-- The `BATCH_POINT` loop (fuel: every pass marks a parent empty or consumes a point). -/
+def batchLoop (cfg : JCfg) (values : List (Option JMsg)) :
+    Nat → List Bool → Nat → List Nat → Option (List String) → List (Int × List (String × String)) → List (Int × List (String × String))
+  | 0, _, _, _, _, acc => acc
+  | fuel + 1, empty, emptyCount, indexes, fieldNames, acc =>
+    if emptyCount < values.length then
+      let it := batchPass cfg.tol 0 values
+        { set := values.map (fun _ => none), setTime := none, count := 0, empty := empty, emptyCount := emptyCount,
+          indexes := indexes, fieldNames := fieldNames }
+      if it.count = 0 then batchLoop cfg values fuel it.empty it.emptyCount it.indexes it.fieldNames acc
+      else
+        match batchFields cfg (it.fieldNames.getD []) it.set cfg.names [] with
+        | none => batchLoop cfg values fuel it.empty it.emptyCount it.indexes it.fieldNames acc
+        | some fields => batchLoop cfg values fuel it.empty it.emptyCount it.indexes it.fieldNames (acc ++ [(it.setTime.getD 0, fields)])
+    else acc
+
+/-- `emitJoinedSet` + `JoinIntoBatch` for a batch join (always yields a batch, possibly without points). -/
+def joinIntoBatch (cfg : JCfg) (s : JSet JMsg) : Option JBOut :=
+  match s.first? with
+  | none => none
+  | some first =>
+    let fuel := (s.values.map (fun v => match v with | some b => b.points.length + 1 | none => 1)).sum + 1
+    some { name := if cfg.sname = "" then first.name else cfg.sname, time := s.time, byName := first.byName, tags := first.tags,
+           points := batchLoop cfg s.values fuel (s.values.map (fun _ => false)) 0 (s.values.map (fun _ => 0)) none [] }
 
 /-! ### JoinNode -/
 
